@@ -4,6 +4,9 @@ cd "$(dirname "$0")" || exit 2
 tier="${1:-quick}"; prop="${2:?property id}"
 export VERIF_TIER="$tier"
 export PYTHONHASHSEED=0 PYTHONDONTWRITEBYTECODE=1 AW_CORE_VERIF=1
+# The library must not depend on the process's local time zone: the checks run in a zone that is not UTC and has
+# DST (POSIX TZ string, needs no tz database); VERIF_TZ overrides.
+export TZ="${VERIF_TZ:-CET-1CEST,M3.5.0,M10.5.0/3}"
 export VERIF_REPO="${VERIF_REPO:-/repo}"
 export PYTHONPATH="$VERIF_REPO:$(pwd)"
 mod="harness.$(echo "$prop" | tr 'A-Z' 'a-z')"
